@@ -61,7 +61,8 @@ def harnesses(tier, seed):
                             bucket.append(collect_harness("c01", "collect_vec", ty, "slice", n, t, c, owners, k, obs=obs,
                                                           tag="" if obs == 1 else "eagerobs"))
             for src in ("sched", "schedx", "vec"):
-                for (n, t, c) in ((3, 2, 1), (3, 2, 2)):
+                # chunked pulls from an iterator-backed source (BufferIter over ConIterOfIter) need > 28 GB: chunk 1 only
+                for (n, t, c) in (((3, 2, 1), (3, 2, 2)) if src == "vec" else ((3, 2, 1),)):
                     for owners in owner_tables(n, t, c):
                         for k in (count_vectors(ty, n) if ty != "FLF" else [(1, 2, 1), (2, 0, 2), (4, 1, 0)]):
                             bucket.append(collect_harness("c01", "collect_vec", ty, src, n, t, c, owners, k))
